@@ -141,27 +141,71 @@ func ruleC15Mark(p *Prog, r *Report) {
 		n++
 		key := p.FuncName(f) + ":flag"
 		lenTest, endTest, symTest := false, false, false
-		eachDominatingCond(in, func(c ssa.Value, pol bool) bool {
-			switch x := c.(type) {
-			case *ssa.BinOp:
-				if x.Op == token.EQL && pol {
-					if kk, isK := constInt(x.Y); isK && kk == 3 && lenOperand(x.X) != nil {
-						lenTest = true
-					}
-					if _, isK := constInt(x.Y); isK && !lenTestValue(x.X) {
-						symTest = true // typ == TokenSymbol
-					}
-				}
-			case *ssa.Call:
-				if cal := x.Common().StaticCallee(); cal != nil && pol {
-					switch p.extName(cal) {
-					case "strings.HasSuffix", "strings.HasPrefix":
-						if s, isS := constString(x.Common().Args[1]); isS && s == "-" {
-							endTest = true
-						}
+		// a test inside a predicate function counts when it is made on the predicate's argument and that argument is
+		// the token's value (resp. its type) at the call
+		tokenVal := func(v ssa.Value, chain []*ssa.Call) bool {
+			if len(chain) == 0 {
+				return true
+			}
+			outer, fld := outerOperand(v, chain)
+			if outer == nil {
+				return false
+			}
+			if fld != "" {
+				n := structOf(outer.Type())
+				return fld == "Val" && n != nil && n.Obj().Name() == "Token"
+			}
+			if loadsField(outer, "Token", "Val") {
+				return true
+			}
+			for _, b := range f.Blocks {
+				for _, x := range b.Instrs {
+					if st2, isSt := x.(*ssa.Store); isSt && isFieldAddrOf(st2.Addr, "Token", "Val") && p.VN(st2.Val) == p.VN(outer) {
+						return true
 					}
 				}
 			}
+			return false
+		}
+		isLenTest := func(c ssa.Value, pol bool, chain []*ssa.Call) bool {
+			x, ok := eqlCond(c, pol)
+			if !ok {
+				return false
+			}
+			kk, isK := constInt(x.Y)
+			return isK && kk == 3 && lenOperand(x.X) != nil && tokenVal(lenOperand(x.X), chain)
+		}
+		isSymTest := func(c ssa.Value, pol bool, chain []*ssa.Call) bool {
+			x, ok := eqlCond(c, pol)
+			if !ok {
+				return false
+			}
+			if _, isK := constInt(x.Y); !isK || lenTestValue(x.X) {
+				return false
+			}
+			if len(chain) == 0 {
+				return true // typ == TokenSymbol
+			}
+			outer, fld := outerOperand(x.X, chain)
+			return outer != nil && (fld == "" || fld == "Typ") && typeName(x.X.Type()) == "TokenType"
+		}
+		isEndTest := func(c ssa.Value, pol bool, chain []*ssa.Call) bool {
+			x, ok := c.(*ssa.Call)
+			if !ok || !pol || x.Common().StaticCallee() == nil {
+				return false
+			}
+			switch p.extName(x.Common().StaticCallee()) {
+			case "strings.HasSuffix", "strings.HasPrefix":
+				if s, isS := constString(x.Common().Args[1]); isS && s == "-" {
+					return tokenVal(x.Common().Args[0], chain)
+				}
+			}
+			return false
+		}
+		eachDominatingCond(in, func(c ssa.Value, pol bool) bool {
+			lenTest = lenTest || condHolds(p, c, pol, nil, isLenTest)
+			symTest = symTest || condHolds(p, c, pol, nil, isSymTest)
+			endTest = endTest || condHolds(p, c, pol, nil, isEndTest)
 			return false
 		})
 		// `a || b` puts the second test on the false edge of the first: accept a marker test anywhere in the
@@ -337,135 +381,167 @@ func ruleC15Cut(p *Prog, r *Report) {
 		r.Unk("anchor", "-", "anchor unresolved: (*nodeHTML).Execute")
 		return
 	}
-	flagsOf := func(in ssa.Instruction) map[string]bool {
+	// the text node's code: Execute and the helpers it was split into
+	cluster := clusterOf(p, nh, 2)
+	flagOfCond := func(c ssa.Value, pol bool) string {
+		if !pol {
+			return ""
+		}
+		if _, n, fld := fieldLoadBase(c); n != nil && (n.Obj().Name() == "nodeHTML" || n.Obj().Name() == "Options") {
+			return fld
+		}
+		return ""
+	}
+	// the flags tested on the way to `in` within its function; a flag tested in a small predicate method counts when
+	// the predicate answers true only with the flag set
+	localFlags := func(in ssa.Instruction) map[string]bool {
 		fl := map[string]bool{}
 		eachDominatingCond(in, func(c ssa.Value, pol bool) bool {
-			if !pol {
+			if fld := flagOfCond(c, pol); fld != "" {
+				fl[fld] = true
 				return false
 			}
-			if _, n, fld := fieldLoadBase(c); n != nil && (n.Obj().Name() == "nodeHTML" || n.Obj().Name() == "Options") {
-				fl[fld] = true
+			for _, cp := range predicateConds(p, c, pol, 0) {
+				fld := flagOfCond(cp.c, cp.pol)
+				if fld == "" || fl[fld] {
+					continue
+				}
+				if condHolds(p, c, pol, nil, func(c2 ssa.Value, pol2 bool, _ []*ssa.Call) bool { return flagOfCond(c2, pol2) == fld }) {
+					fl[fld] = true
+				}
 			}
 			return false
 		})
 		return fl
 	}
+	// … and, for a trim in a helper, the flags under which every call of the helper in the cluster is made
+	flagsOf := func(in ssa.Instruction) map[string]bool {
+		fl := localFlags(in)
+		for k := range inheritedGuards(cluster, nh, in.Parent(), localFlags, 0) {
+			fl[k] = true
+		}
+		return fl
+	}
 	ws := setOf(" \t\r\n")
 	anyWS := setOf(" \t\r\n\v\f")
 	nTrim := 0
-	for _, b := range nh.Blocks {
-		for _, in := range b.Instrs {
-			switch x := in.(type) {
-			case *ssa.Call:
-				cal := x.Common().StaticCallee()
-				if cal == nil {
-					continue
-				}
-				name := p.extName(cal)
-				if name != "strings.TrimLeft" && name != "strings.TrimRight" && name != "strings.Trim" && name != "strings.TrimSpace" && name != "strings.TrimPrefix" && name != "strings.TrimSuffix" {
-					continue
-				}
-				nTrim++
-				fl := flagsOf(in)
-				cut, okCut := "", true
-				if len(x.Common().Args) > 1 {
-					cut, okCut = stringValueOf(p, x.Common().Args[1])
-				}
-				cs := setOf(cut)
+	var instrs []ssa.Instruction
+	for _, fn := range cluster {
+		for _, b := range fn.Blocks {
+			instrs = append(instrs, b.Instrs...)
+		}
+	}
+	for _, in := range instrs {
+		switch x := in.(type) {
+		case *ssa.Call:
+			cal := x.Common().StaticCallee()
+			if cal == nil {
+				continue
+			}
+			name := p.extName(cal)
+			if name != "strings.TrimLeft" && name != "strings.TrimRight" && name != "strings.Trim" && name != "strings.TrimSpace" && name != "strings.TrimPrefix" && name != "strings.TrimSuffix" {
+				continue
+			}
+			nTrim++
+			fl := flagsOf(in)
+			cut, okCut := "", true
+			if len(x.Common().Args) > 1 {
+				cut, okCut = stringValueOf(p, x.Common().Args[1])
+			}
+			cs := setOf(cut)
+			switch {
+			case fl["LStripBlocks"] || fl["beforeBlock"]:
+				key := "nodeHTML.Execute:LStripBlocks"
 				switch {
-				case fl["LStripBlocks"] || fl["beforeBlock"]:
-					key := "nodeHTML.Execute:LStripBlocks"
-					switch {
-					case !(fl["LStripBlocks"] && fl["beforeBlock"]):
-						r.Bad(key, p.InstrPos(in), "the indentation strip is not under both LStripBlocks and beforeBlock (%v)", keysOf(fl))
-					case name != "strings.TrimRight" || !okCut:
-						r.Bad(key, p.InstrPos(in), "blanks before a block tag are removed with %s(%s): it is the END of the text that stands before the tag", name, p.VN(x))
-					case len(cs) == 2 && cs[' '] && cs['\t']:
-						r.OK(key, p.InstrPos(in), "TrimRight with exactly {space, tab}")
-					default:
-						r.Bad(key, p.InstrPos(in), "LStripBlocks cuts %s, the option names spaces and tabs: line breaks before a block tag disappear (or tabs stay)", showSet(cs))
-					}
-				case fl["trimLeft"], fl["trimRight"]:
-					side, fn := "trimLeft", "strings.TrimLeft"
-					if fl["trimRight"] {
-						side, fn = "trimRight", "strings.TrimRight"
-					}
-					key := "nodeHTML.Execute:" + side
-					okSet := okCut && name != "strings.TrimSpace"
-					for c := range ws {
-						if !cs[c] {
-							okSet = false
-						}
-					}
-					for c := range cs {
-						if !anyWS[c] {
-							okSet = false
-						}
-					}
-					switch {
-					case fl["trimLeft"] && fl["trimRight"]:
-						r.Bad(key, p.InstrPos(in), "one trim is under both marker flags")
-					case name != fn:
-						r.Bad(key, p.InstrPos(in), "under %s the text is cut with %s: the marker removes white space on the side of the text that faces it, and nothing on the other", side, name)
-					case !okSet:
-						r.Bad(key, p.InstrPos(in), "the marker cuts %s; it removes ALL white space next to it (space, tab, CR, LF) and nothing but white space", showSet(cs))
-					default:
-						r.OK(key, p.InstrPos(in), "%s with %s", fn, showSet(cs))
-					}
-				case fl["TrimBlocks"] || fl["afterBlock"]:
-					key := "nodeHTML.Execute:TrimBlocks"
-					if name == "strings.TrimPrefix" && okCut && cut == "\n" && fl["TrimBlocks"] && fl["afterBlock"] {
-						r.OK(key, p.InstrPos(in), "TrimPrefix of one LF")
-					} else {
-						r.Bad(key, p.InstrPos(in), "TrimBlocks removes with %s(%q): exactly the first newline after the tag goes, nothing else", name, cut)
-					}
+				case !(fl["LStripBlocks"] && fl["beforeBlock"]):
+					r.Bad(key, p.InstrPos(in), "the indentation strip is not under both LStripBlocks and beforeBlock (%v)", keysOf(fl))
+				case name != "strings.TrimRight" || !okCut:
+					r.Bad(key, p.InstrPos(in), "blanks before a block tag are removed with %s(%s): it is the END of the text that stands before the tag", name, p.VN(x))
+				case len(cs) == 2 && cs[' '] && cs['\t']:
+					r.OK(key, p.InstrPos(in), "TrimRight with exactly {space, tab}")
 				default:
-					r.Bad("nodeHTML.Execute:"+name, p.InstrPos(in), "%s is applied under no whitespace-control flag", name)
+					r.Bad(key, p.InstrPos(in), "LStripBlocks cuts %s, the option names spaces and tabs: line breaks before a block tag disappear (or tabs stay)", showSet(cs))
 				}
-			case *ssa.Slice:
-				// res[1:] : TrimBlocks — exactly one byte, which was tested to be LF
-				if !isStringType(x.X.Type()) {
-					continue
+			case fl["trimLeft"], fl["trimRight"]:
+				side, fn := "trimLeft", "strings.TrimLeft"
+				if fl["trimRight"] {
+					side, fn = "trimRight", "strings.TrimRight"
 				}
-				nTrim++
-				fl := flagsOf(in)
+				key := "nodeHTML.Execute:" + side
+				okSet := okCut && name != "strings.TrimSpace"
+				for c := range ws {
+					if !cs[c] {
+						okSet = false
+					}
+				}
+				for c := range cs {
+					if !anyWS[c] {
+						okSet = false
+					}
+				}
+				switch {
+				case fl["trimLeft"] && fl["trimRight"]:
+					r.Bad(key, p.InstrPos(in), "one trim is under both marker flags")
+				case name != fn:
+					r.Bad(key, p.InstrPos(in), "under %s the text is cut with %s: the marker removes white space on the side of the text that faces it, and nothing on the other", side, name)
+				case !okSet:
+					r.Bad(key, p.InstrPos(in), "the marker cuts %s; it removes ALL white space next to it (space, tab, CR, LF) and nothing but white space", showSet(cs))
+				default:
+					r.OK(key, p.InstrPos(in), "%s with %s", fn, showSet(cs))
+				}
+			case fl["TrimBlocks"] || fl["afterBlock"]:
 				key := "nodeHTML.Execute:TrimBlocks"
-				low, okLow := int64(0), x.Low == nil
-				if x.Low != nil {
-					low, okLow = constInt(x.Low)
+				if name == "strings.TrimPrefix" && okCut && cut == "\n" && fl["TrimBlocks"] && fl["afterBlock"] {
+					r.OK(key, p.InstrPos(in), "TrimPrefix of one LF")
+				} else {
+					r.Bad(key, p.InstrPos(in), "TrimBlocks removes with %s(%q): exactly the first newline after the tag goes, nothing else", name, cut)
 				}
-				lf := false
-				eachDominatingCond(in, func(c ssa.Value, pol bool) bool {
-					bo, ok := c.(*ssa.BinOp)
-					if !ok || bo.Op != token.EQL || !pol {
-						return false
-					}
-					if k, isK := constInt(bo.Y); isK && k == '\n' {
-						var sx, si ssa.Value
-						switch ix := bo.X.(type) {
-						case *ssa.Lookup:
-							sx, si = ix.X, ix.Index
-						case *ssa.Index:
-							sx, si = ix.X, ix.Index
-						}
-						if sx != nil {
-							if i0, isZ := constInt(si); isZ && i0 == 0 && p.VN(sx) == p.VN(x.X) {
-								lf = true
-							}
-						}
-					}
+			default:
+				r.Bad("nodeHTML.Execute:"+name, p.InstrPos(in), "%s is applied under no whitespace-control flag", name)
+			}
+		case *ssa.Slice:
+			// res[1:] : TrimBlocks — exactly one byte, which was tested to be LF
+			if !isStringType(x.X.Type()) {
+				continue
+			}
+			nTrim++
+			fl := flagsOf(in)
+			key := "nodeHTML.Execute:TrimBlocks"
+			low, okLow := int64(0), x.Low == nil
+			if x.Low != nil {
+				low, okLow = constInt(x.Low)
+			}
+			lf := false
+			eachDominatingCond(in, func(c ssa.Value, pol bool) bool {
+				bo, ok := c.(*ssa.BinOp)
+				if !ok || bo.Op != token.EQL || !pol {
 					return false
-				})
-				switch {
-				case !(fl["TrimBlocks"] && fl["afterBlock"]):
-					r.Bad(key, p.InstrPos(in), "the text is resliced outside the TrimBlocks/afterBlock flags (%v)", keysOf(fl))
-				case !okLow || low != 1 || x.High != nil:
-					r.Bad(key, p.InstrPos(in), "TrimBlocks reslices %s[%s:%s]: exactly one leading byte goes", p.VN(x.X), vnOrEmpty(p, x.Low), vnOrEmpty(p, x.High))
-				case !lf:
-					r.Bad(key, p.InstrPos(in), "the byte TrimBlocks removes was not tested to be a line feed at position 0")
-				default:
-					r.OK(key, p.InstrPos(in), "removes the first byte, tested to be LF, only under TrimBlocks && afterBlock")
 				}
+				if k, isK := constInt(bo.Y); isK && k == '\n' {
+					var sx, si ssa.Value
+					switch ix := bo.X.(type) {
+					case *ssa.Lookup:
+						sx, si = ix.X, ix.Index
+					case *ssa.Index:
+						sx, si = ix.X, ix.Index
+					}
+					if sx != nil {
+						if i0, isZ := constInt(si); isZ && i0 == 0 && p.VN(sx) == p.VN(x.X) {
+							lf = true
+						}
+					}
+				}
+				return false
+			})
+			switch {
+			case !(fl["TrimBlocks"] && fl["afterBlock"]):
+				r.Bad(key, p.InstrPos(in), "the text is resliced outside the TrimBlocks/afterBlock flags (%v)", keysOf(fl))
+			case !okLow || low != 1 || x.High != nil:
+				r.Bad(key, p.InstrPos(in), "TrimBlocks reslices %s[%s:%s]: exactly one leading byte goes", p.VN(x.X), vnOrEmpty(p, x.Low), vnOrEmpty(p, x.High))
+			case !lf:
+				r.Bad(key, p.InstrPos(in), "the byte TrimBlocks removes was not tested to be a line feed at position 0")
+			default:
+				r.OK(key, p.InstrPos(in), "removes the first byte, tested to be LF, only under TrimBlocks && afterBlock")
 			}
 		}
 	}
@@ -493,13 +569,17 @@ func ruleC15Spaceless(p *Prog, a *Anchors, r *Report) {
 		r.Unk("anchor", "-", "anchor unresolved: (*tagSpacelessNode).Execute")
 		return
 	}
+	// the tag's code: Execute and the helpers it was split into
+	cluster := clusterOf(p, ex, 2)
 	var call *ssa.Call
 	n := 0
-	for _, b := range ex.Blocks {
-		for _, in := range b.Instrs {
-			if c, ok := in.(*ssa.Call); ok && c.Common().StaticCallee() != nil && strings.HasPrefix(p.extName(c.Common().StaticCallee()), "(*regexp.Regexp).Replace") {
-				call = c
-				n++
+	for _, fn := range cluster {
+		for _, b := range fn.Blocks {
+			for _, in := range b.Instrs {
+				if c, ok := in.(*ssa.Call); ok && c.Common().StaticCallee() != nil && strings.HasPrefix(p.extName(c.Common().StaticCallee()), "(*regexp.Regexp).Replace") {
+					call = c
+					n++
+				}
 			}
 		}
 	}
@@ -518,7 +598,8 @@ func ruleC15Spaceless(p *Prog, a *Anchors, r *Report) {
 		r.Bad("spaceless:replace", p.InstrPos(call), "pattern %q does not compile", pat)
 		return
 	}
-	iterated := inLoop(call)
+	// repeated: the replacement stands in a loop, or in a helper every call of which stands in one
+	iterated := inLoop(call) || calledInLoop(cluster, ex, call.Parent(), 0)
 	items := []string{"<a>", "</a>", "<br/>", "x", " ", "\n", "\t"}
 	isTag := func(s string) bool { return strings.HasPrefix(s, "<") }
 	isWS := func(s string) bool { return s == " " || s == "\n" || s == "\t" }
@@ -587,24 +668,7 @@ func ruleC15Spaceless(p *Prog, a *Anchors, r *Report) {
 			}
 			wrote = true
 			v := stripLoad(ci.Common().Args[0])
-			from := false
-			seen := map[ssa.Value]bool{}
-			var walk func(v ssa.Value)
-			walk = func(v ssa.Value) {
-				if seen[v] {
-					return
-				}
-				seen[v] = true
-				if v == ssa.Value(call) {
-					from = true
-				}
-				if ph, ok := v.(*ssa.Phi); ok {
-					for _, e := range ph.Edges {
-						walk(e)
-					}
-				}
-			}
-			walk(v)
+			from := flowsFromCall(p, cluster, v, call)
 			if from {
 				r.OK("spaceless:sink", p.InstrPos(in), "the tag writes the result of the replacement")
 			} else {
